@@ -471,3 +471,29 @@ Proof.
       unfold rscale; cbn [map rzip rdot]; try lra. fold (rscale c f2). rewrite IH by (injection L; auto). ring. }
   rewrite E. unfold Rdiv. ring.
 Qed.
+
+(* the event density does not change when all sample weights are rescaled (alpha is re-applied by the code) *)
+Lemma ev_density_nz_scale a we fe : a <> 0 -> Forall (fun w => rsum w <> 0) we ->
+  ev_density_nz (map (rscale a) we) fe = ev_density_nz we fe.
+Proof.
+  intros Ha H. revert fe. induction H as [|w we Hw _ IH]; intros [|f fe]; cbn [map ev_density_nz]; try reflexivity.
+  rewrite IH, rdot_scale_l, rsum_rscale. f_equal. field. split; assumption.
+Qed.
+
+Lemma ev_weights_nz_cert c we : 0 < c -> shortfall c (sqs (ev_weights we)) <= c / 2 -> Forall (fun w => rsum w <> 0) we.
+Proof.
+  intros Hc H. pose proof (shortfall_gt c _ Hc H) as F.
+  unfold sqs, ev_weights in F. rewrite map_map in F. rewrite Forall_map in F.
+  eapply Forall_impl; [|exact F]. cbn. intros w Hw E. rewrite E in Hw. lra.
+Qed.
+
+Lemma ev_density_scaled_cert c a we fe :
+  0 < c -> a <> 0 -> shortfall c (sqs (ev_weights we)) <= c / 2 ->
+  ev_density (map (rscale a) we) fe = ev_density_nz we fe.
+Proof.
+  intros Hc Ha H. pose proof (ev_weights_nz_cert c we Hc H) as F.
+  rewrite ev_density_nz_eq.
+  - apply ev_density_nz_scale; assumption.
+  - rewrite Forall_map. eapply Forall_impl; [|exact F]. cbn. intros w Hw. rewrite rsum_rscale.
+    apply Rmult_integral_contrapositive_currified; assumption.
+Qed.
